@@ -67,7 +67,19 @@ func genFault(r *hx.Rand, a *Assets, where []location) (*Assets, string) {
 	if f == nil {
 		return nil, ""
 	}
-	switch r.Intn(8) {
+	switch r.Intn(10) {
+	case 8, 9: // the flow was re-saved with another type (messaging <-> messaging_background <-> voice)
+		nt := (f.Type + 1 + r.Intn(2)) % 3
+		was := f.Type
+		f.Type = nt
+		for _, n := range f.Nodes {
+			if n.Router != nil && n.Router.Wait != nil && (nt == 1 || (nt == 0 && n.Router.Wait.Dial)) {
+				// a wait of a kind the new type does not allow: the definition no longer validates (the loader rejects it)
+				f.Corrupt, f.CorruptNode = "wait-not-allowed-in-flow-type", n.ID
+				break
+			}
+		}
+		return b, fmt.Sprintf("flow %d changed type %s -> %s", loc.Flow, flowTypes[was], flowTypes[nt])
 	case 6, 7: // the flow is still there but was edited so that it no longer validates (the loader rejects it)
 		if f.corrupt(r, loc.Node) {
 			return b, fmt.Sprintf("flow %d edited, no longer valid (%s at node %d)", loc.Flow, f.Corrupt, f.CorruptNode)
@@ -334,8 +346,8 @@ func main() {
 	}
 	rules := map[string]string{
 		"C01": "fixed corpus of minimal histories of the repaired defects first; then random CFL assets (3/4: 1-4 flows, 0-6 nodes, cycles, self/mutual/terminal enters, empty flows, waits with/without timeout; 1/4: enter_flow chains 3-6 levels deep whose deepest flow waits, fails, enters itself or closes the cycle) x trigger (manual/msg/flow_action) x 0-8 resumes (msg/timeout/expiration/dial); a history whose first sprint does not wait is redrawn once; non-trivial = the history has >=2 sprints and >=2 runs, or took a failure/expiry/terminal/limit branch; distinct = distinct canonical history JSON",
-		"C05": "(a) as C01 with adversarial graphs (self-loops, default-to-self routers, A enters B enters A, terminal loops) and small option values; non-trivial = some sprint came within 2 of the step limit or hit it, or a text was cut at a length limit, or the resume limit was reached; (b) payload stream, direct oracle only (outside the Coq model): fixed corpus + flows with send_msg (text, quick replies, attachments around 2048 bytes), set_contact_name, set_contact_field (text/number/datetime fields) and set_run_result whose values have limit+1, limit, limit-1 or many more characters, built from ASCII, multi-byte text, dates, numbers and URLs, under small random MaxFieldChars/MaxResultChars/MaxTemplateChars and the defaults; every event payload and the resulting contact and run results are checked; non-trivial = some value exceeds its limit or the message has quick replies/attachments",
-		"C10": "as C01 (first sprint redrawn up to 5 times until it waits; 15% dial, 15% wait_timeout, 5% run_expiration resumes) plus faults in the asset store between sprints (flow deleted, waiting node deleted / without router / without wait, timeout removed/added, resume limit lowered), resumes of every type against every wait, resumes of finished sessions, tampered sessions without a waiting run; non-trivial = at least one resume was rejected with an engine error or ended in a failed session",
+		"C05": "(a) as C01 with adversarial graphs (self-loops, default-to-self routers, A enters B enters A, terminal loops) and small option values; non-trivial = some sprint came within 2 of the step limit or hit it, or a text was cut at a length limit, or the resume limit was reached; (b) payload stream, direct oracle only (outside the Coq model): fixed corpus + flows with send_msg (text, quick replies, attachments around 2048 bytes), set_contact_name, set_contact_field (text/number/datetime fields) and set_run_result whose values have limit+1, limit, limit-1 or many more characters, built from ASCII, multi-byte text, dates, numbers and URLs, under small random MaxFieldChars/MaxResultChars/MaxTemplateChars and the defaults; every event payload and the resulting contact and run results are checked (1 case in 7 is a voice flow with play_audio / say_msg: the message on ivr_created gets the checks of msg_created); non-trivial = some value exceeds its limit or the message has quick replies/attachments; (c) definition stream, direct oracle only: fixed corpus + flows whose type changes between sprints, reference lists with null/empty/malformed/duplicate elements, self-returning routers and actions that read back what the previous visit stored (run under growing step limits; no string of the session or the events longer than every limit), sessions without a contact x 19 first actions; (d) expressions nested 40,000 deep run in a child process under a 48 MB stack ceiling",
+		"C10": "as C01 (first sprint redrawn up to 5 times until it waits; 15% dial, 15% wait_timeout, 5% run_expiration resumes) plus faults in the asset store between sprints (flow deleted, flow re-saved with another type, flow edited so that it no longer validates, waiting node deleted / without router / without wait, timeout removed/added, resume limit lowered), resumes of every type against every wait, resumes of finished sessions, tampered sessions without a waiting run; plus the definition stream (direct oracle only): flows whose type changes between sprints with say_msg / play_audio / send_msg after the wait; non-trivial = at least one resume was rejected with an engine error or ended in a failed session",
 	}
 	res := hx.NewResult(o, rules[prop])
 	rnd := hx.NewRand(o.Seed)
